@@ -17,6 +17,7 @@ package document
 
 import (
 	"fmt"
+	"math"
 
 	"github.com/codenotary/immudb/embedded/sql"
 	"github.com/codenotary/immudb/embedded/store"
@@ -56,7 +57,13 @@ var structValueToSqlValue = func(value *structpb.Value, sqlType sql.SQLValueType
 		if !ok {
 			return nil, fmt.Errorf("%w: expecting value of type %s", ErrUnexpectedValue, sqlType)
 		}
-		return sql.NewInteger(int64(value.GetNumberValue())), nil
+		// only integral numbers within the int64 range have an INTEGER representation: anything else
+		// would be stored / compared as a different number than the one the document holds
+		f := value.GetNumberValue()
+		if f != math.Trunc(f) || f < -9223372036854775808.0 || f >= 9223372036854775808.0 {
+			return nil, fmt.Errorf("%w: expecting an integral value of type %s", ErrUnexpectedValue, sqlType)
+		}
+		return sql.NewInteger(int64(f)), nil
 	case sql.BLOBType:
 		_, ok := value.GetKind().(*structpb.Value_StringValue)
 		if !ok {
